@@ -597,7 +597,22 @@ func genPrice(t *rapid.T) uint64 {
 
 const estUnlock = 107 // 1+72 (DER max with low S + hash type) + 1+33 (compressed key)
 
-func genFlow(t *rapid.T, variant string) Flow {
+func genFlow(t *rapid.T, variant string) Flow { return genFlowWith(t, variant, nil, Share{}) }
+
+// Share says which parts of a flow are taken over from an earlier flow (used by
+// the sequence sub-checks; the zero value takes over nothing).
+type Share struct {
+	Ordinal bool `json:"ordinal,omitempty"` // same seller key and ordinal UTXO
+	Listing bool `json:"listing,omitempty"` // same price and seller script as well (one listing / one asking price)
+	Scripts bool `json:"scripts,omitempty"` // same receive / dummy / change scripts
+	FQ      bool `json:"fq,omitempty"`      // same fee quote
+	Funding bool `json:"funding,omitempty"` // same buyer keys and funding UTXOs
+}
+
+// genFlowWith draws a flow; with a base, the shared parts are the base's and
+// everything else (in particular the funding relative to the fee threshold) is
+// drawn for this flow on its own. All draws happen either way.
+func genFlowWith(t *rapid.T, variant string, base *Flow, sh Share) Flow {
 	c := Flow{Variant: variant}
 	listing := c.Variant == "list" || c.Variant == "list2d"
 	twoD := c.Variant == "list2d" || c.Variant == "bid2d"
@@ -617,6 +632,12 @@ func genFlow(t *rapid.T, variant string) Flow {
 	}
 	c.Price = genPrice(t)
 	c.SellerScript = genOutScript(t, "seller_script", c.Variant == "bid2d" && rapid.IntRange(0, 9).Draw(t, "seller_p2pkh") > 0, false)
+	if base != nil && sh.Ordinal {
+		c.SellerKey, c.OrdTxID, c.OrdVout, c.OrdSats, c.OrdContent = base.SellerKey, base.OrdTxID, base.OrdVout, base.OrdSats, base.OrdContent
+	}
+	if base != nil && sh.Listing {
+		c.Price, c.SellerScript = base.Price, base.SellerScript
+	}
 	c.Receive = genOutScript(t, "receive", false, false)
 	c.Dummy = genOutScript(t, "dummy", false, false)
 	// The change script is never an OP_RETURN data script: how Tx.Change prices a
@@ -627,6 +648,12 @@ func genFlow(t *rapid.T, variant string) Flow {
 		c.Change = genOutScript(t, "change", false, true)
 	}
 	c.Std, c.Data = genRate(t, "std"), genRate(t, "data")
+	if base != nil && sh.Scripts {
+		c.Receive, c.Dummy, c.Change = base.Receive, base.Dummy, base.Change
+	}
+	if base != nil && sh.FQ {
+		c.Std, c.Data = base.Std, base.Data
+	}
 
 	n := rapid.IntRange(2, 6).Draw(t, "nfund")
 	if twoD && n == 2 && rapid.IntRange(0, 9).Draw(t, "nfund_2d_short") > 0 {
@@ -751,6 +778,9 @@ func genFlow(t *rapid.T, variant string) Flow {
 			c.Funding[i].Vout++
 		}
 		used[outpoint(c.Funding[i].TxID, c.Funding[i].Vout)] = true
+	}
+	if base != nil && sh.Funding {
+		c.BuyerKeys, c.Funding, c.Target, c.Delta = base.BuyerKeys, base.Funding, "shared-funding", 0
 	}
 	return c
 }
